@@ -70,6 +70,55 @@ theorem find_frozen (s : RS) (d : Details) (n : DName) :
   simp only [frozenDetails, List.find?_map]
   rfl
 
+/-! ### reading timed stages -/
+theorem timed_flatMap_aux {β : Type} (p : Program) (F : Nat × Stage → List β) (g : Stage → List β)
+    (hF : ∀ k st, F (k, st) = g st) : ∀ (ids : List Nat) (k0 : Nat),
+    ((ids.zipIdx k0).filterMap fun (id, k) => (findStage p id).map fun st => (k, st)).flatMap F =
+      (ids.filterMap (findStage p)).flatMap g
+  | [], _ => rfl
+  | id :: ids, k0 => by
+    simp only [List.zipIdx_cons, List.filterMap_cons]
+    cases findStage p id with
+    | none => simpa using timed_flatMap_aux p F g hF ids (k0 + 1)
+    | some st =>
+      simp only [Option.map_some, List.flatMap_cons, hF]
+      rw [timed_flatMap_aux p F g hF ids (k0 + 1)]
+
+theorem timed_flatMap {β : Type} (p : Program) (t : Trace) (F : Nat × Stage → List β) (g : Stage → List β)
+    (hF : ∀ k st, F (k, st) = g st) : (timed p t).flatMap F = (executed p t).flatMap g :=
+  timed_flatMap_aux p F g hF (stageIds t) 1
+
+theorem plainOf_eq (as : List Act) :
+    (as.filterMap fun | .addDetail n c => some (n, c) | _ => none) = plainOf as := by
+  induction as with
+  | nil => rfl
+  | cons a as ih => cases a <;> simp [plainOf, List.filterMap_cons, ih]
+
+theorem plainAdds_eq (p : Program) (t : Trace) : plainAdds p t = (executed p t).flatMap fun st => plainOf st.acts := by
+  unfold plainAdds
+  apply timed_flatMap
+  intro k st
+  exact plainOf_eq st.acts
+
+theorem lastAdd_of_idx (A : List (DName × UC)) (n : DName) (c : UC) (i : Nat) (h : A[i]? = some (n, c))
+    (hno : (A.drop (i + 1)).any (fun x => x.1 == n) = false) : lastAdd A n = some c := by
+  obtain ⟨hi, hget⟩ := List.getElem?_eq_some_iff.mp h
+  have hA : A = A.take i ++ (n, c) :: A.drop (i + 1) := by
+    rw [← hget, ← List.drop_eq_getElem_cons hi, List.take_append_drop]
+  have hnone : (A.drop (i + 1)).reverse.find? (fun x => x.1 == n) = none := by
+    rw [List.find?_eq_none]
+    intro x hx
+    have := List.any_eq_false.mp hno x (by simpa using hx)
+    simpa using this
+  unfold lastAdd
+  rw [hA]
+  simp only [List.reverse_append, List.reverse_cons, List.append_assoc, List.find?_append, hnone, Option.none_or]
+  simp
+
+theorem freeze_user (k : Nat) (c : UC) : freeze k (.user c) = evalAt k c := by
+  obtain ⟨i, l⟩ := c
+  cases l <;> simp [freeze, evalAt]
+
 /-! ## per-run clauses on the model's trace -/
 section perRun
 variable (p : Program) (ff0 : Bool) (hwf : wf p = true)
@@ -164,6 +213,39 @@ theorem clause_reason : cReason p ff0 (runOnce p ff0) = true := by
         right
         simp only [List.contains_eq_mem, List.mem_map, List.mem_filter, decide_eq_true_eq]
         exact ⟨e, ⟨select_mem _ _ _ hsel, by simp [hh]⟩, rfl⟩
+
+theorem finalClock_eq (hskip : p.skipDeco = none) (o : Outcome) (d : Details) (r : Option Exc) (ffa : Bool) (n : Nat)
+    (a : List (Nat × Nat)) :
+    finalClock ⟨wrapRun p.flavour ([.startTest] ++ (runCore p ff0).1.log ++ [.outcome o d] ++ stopEv p.flavour), r, ffa, n, a⟩
+      = (runCore p ff0).1.clock := by
+  obtain ⟨T, A, U, hD⟩ := runCore_invD p ff0 hwf
+  rw [finalClock, (reads_of p ff0 hwf hskip _ _ _ _ _ _).ids, hD.clock]; simp
+
+theorem clause_userDetails : cUserDetails p ff0 (runOnce p ff0) = true := by
+  simp only [cUserDetails, Bool.or_eq_true]
+  by_cases hsd : showsDetails p.flavour = true
+  case neg => left; left; simpa using hsd
+  cases hskip : p.skipDeco with
+  | some r => left; right; rfl
+  | none =>
+    right
+    obtain ⟨o, r, sel, _, hshape⟩ := runOnce_shape_d p ff0 hwf hskip
+    have cf := runCore_facts p ff0 hwf hskip
+    obtain ⟨T, A, U, hD⟩ := runCore_invD p ff0 hwf
+    have hJ := hD.js.final (handlers p) sel
+    rw [hshape]
+    simp only [detailsOf_shape _ _ cf.logPure, finalClock_eq p ff0 hwf hskip, plainAdds_eq,
+      (reads_of p ff0 hwf hskip _ _ _ _ _ _).executed, ← hD.adds, visibleDetails, hsd, if_true]
+    rw [List.all_eq_true]
+    rintro ⟨⟨n, c⟩, i⟩ hx
+    have hget : A[i]? = some (n, c) := List.mem_zipIdx_iff_getElem?.mp hx
+    simp only [Bool.or_eq_true]
+    by_cases hlater : (A.drop (i + 1)).any (fun x => x.1 == n) = true
+    · exact Or.inl hlater
+    · right
+      have hl := lastAdd_of_idx A n c i hget (Bool.not_eq_true _ ▸ hlater)
+      rw [find_frozen, hJ.ud n c hl]
+      simp [freeze_user]
 
 end perRun
 
